@@ -736,6 +736,15 @@ namespace link_layer {
         // TODO Make handle_pending_ll_control() impossible to fail by checking PDUs immediately
         ll_result handle_pending_ll_control( std::uint16_t instance );
 
+        // An instant is in the past if ( instant - connEventCount ) modulo 65536 is greater than or equal to 32767.
+        // min_distance is the number of connection events an instant has to be ahead of the current connection event at least.
+        bool instant_passed( std::uint16_t instant, std::uint16_t min_distance ) const
+        {
+            const std::uint16_t distance = static_cast< std::uint16_t >( instant - this->connection_event_counter() );
+
+            return distance >= 32767 || distance < min_distance;
+        }
+
         connection_details details() const;
 
         static constexpr unsigned       first_advertising_channel   = 37;
@@ -1548,8 +1557,7 @@ namespace link_layer {
                 defered_conn_event_counter_ = read_16bit( &body[ 10 ] );
                 commit = false;
 
-                if ( static_cast< std::uint16_t >( defered_conn_event_counter_ - this->connection_event_counter() + 1 ) & 0x8000
-                    || defered_conn_event_counter_ == this->connection_event_counter() + 1 )
+                if ( instant_passed( defered_conn_event_counter_, 2 ) )
                 {
                     disconnecting_reason_ = connection_instant_passed;
                     result = ll_result::disconnect;
@@ -1588,7 +1596,7 @@ namespace link_layer {
                 defered_conn_event_counter_ = read_16bit( &body[ 6 ] );
                 commit = false;
 
-                if ( static_cast< std::uint16_t >( defered_conn_event_counter_ - this->connection_event_counter() ) & 0x8000 )
+                if ( instant_passed( defered_conn_event_counter_, 1 ) )
                 {
                     disconnecting_reason_ = connection_instant_passed;
                     result = ll_result::disconnect;
@@ -1674,6 +1682,11 @@ namespace link_layer {
             else if ( this->handle_phy_request( opcode, size, pdu, write, *this, commit ) )
             {
                 // all phy PDU handled in handle_phy_reqest
+                if ( !defered_ll_control_pdu_.empty() && instant_passed( defered_conn_event_counter_, 1 ) )
+                {
+                    disconnecting_reason_ = connection_instant_passed;
+                    result = ll_result::disconnect;
+                }
             }
             else if ( opcode != LL_UNKNOWN_RSP )
             {
